@@ -18,7 +18,7 @@ func init() {
 		NotDecided: "TLS, header canonicalisation and path cleaning inside net/http, behaviour of the upstream stores.",
 		Rules: []rule{
 			{"C15.auth-dominates", "every dispatch/store call in ServeHTTP lies behind the exact Authorization comparison (or no value configured)", 6, c15Auth},
-			{"C15.readonly", "writes and body reads only behind validateWritable()==nil; validateWritable passes only when writable", 5, c15Readonly},
+			{"C15.readonly", "writes and body reads only where the writable switch was found set (inline or through a predicate wrapper)", 4, c15Readonly},
 			{"C15.flag-defaults", "servers are read-only unless --writeable is given", 2, func(c *Ctx) {
 				c.flagDefaults(map[string]flagSpec{"writeable": {"false", ".writable", 2}})
 			}},
@@ -111,16 +111,16 @@ func c15Auth(c *Ctx) {
 			continue
 		}
 		acc := authAccept(fn)
-		edges := acceptingEdges(fn, acc)
-		reach := reachable(fn, edges)
 		n := 0
 		instrs(fn, func(b *ssa.BasicBlock, _ int, ins ssa.Instruction) {
 			ci, ok := ins.(ssa.CallInstruction)
-			if !ok {
+			if !ok || ins.Parent() != fn {
 				return
 			}
 			target := ""
-			if cal := c.staticFn(ci); cal != nil && cal.Signature.Recv() != nil && namedOf(cal.Signature.Recv().Type()) == t {
+			if cal := c.staticFn(ci); cal != nil && newHelpers[cal] {
+				return // the authorization wrapper itself (looked through by guarded)
+			} else if cal != nil && cal.Signature.Recv() != nil && namedOf(cal.Signature.Recv().Type()) == t {
 				target = "dispatch " + cal.Name()
 			} else if isStoreInvoke(ci) {
 				target = "store call " + ci.Common().Method.Name()
@@ -130,11 +130,12 @@ func c15Auth(c *Ctx) {
 			}
 			n++
 			key := fmt.Sprintf("%s:%s", fnKey(fn), strings.ReplaceAll(target, " ", "-"))
-			if len(edges) == 0 {
+			okG, ne := guarded(fn, ins, acc)
+			if ne == 0 {
 				c.bad(key, ins.Pos(), "%s is reachable without any comparison of the Authorization header with the configured value: the handler never looks at it", target)
 				return
 			}
-			c.verdict(!reach[b], key, ins.Pos(), fmt.Sprintf("%s only behind the exact Authorization comparison or the no-value edge (%d accepting edges)", target, len(edges)),
+			c.verdict(okG, key, ins.Pos(), fmt.Sprintf("%s only behind the exact Authorization comparison or the no-value edge (%d accepting edges)", target, ne),
 				fmt.Sprintf("%s is reachable on a path that did not find the Authorization header equal (plain string comparison) to the configured value", target))
 		})
 		if n == 0 {
@@ -144,31 +145,22 @@ func c15Auth(c *Ctx) {
 }
 
 func c15Readonly(c *Ctx) {
-	// validateWritable
-	if fn := c.mustFn("HTTPHandlerBase.validateWritable"); fn != nil {
-		n := 0
-		for _, r := range returnsOf(fn) {
-			if len(r.Results) == 1 && isNilConst(r.Results[0]) {
-				n++
-				okG, _ := guarded(fn, r, func(iff *ssa.If) (bool, bool) {
-					if !onlyOrigins(stripNot(iff.Cond), func(o string) bool { return o == "field:HTTPHandlerBase.writable" }) {
-						return false, false
-					}
-					if _, isBin := stripNot(iff.Cond).(*ssa.BinOp); isBin {
-						return false, false
-					}
-					_, truth, _ := cmpOf(iff.Cond)
-					return truth, !truth
-				})
-				c.verdict(okG, "HTTPHandlerBase.validateWritable:nil-only-if-writable", r.Pos(), "nil is returned only on the writable edge", "validateWritable can return nil although the server was not started writable")
-			}
+	// The primitive: the writable field of the handler.  A write to the store or a read of the
+	// request body lies behind the edge on which h.writable was found true - tested inline or
+	// through a predicate wrapper (validateWritable() == nil); guarded() recognises both shapes.
+	writableTrue := func(iff *ssa.If) (bool, bool) {
+		if !onlyOrigins(stripNot(iff.Cond), func(o string) bool { return o == "field:HTTPHandlerBase.writable" }) {
+			return false, false
 		}
-		if n == 0 {
-			c.bad("HTTPHandlerBase.validateWritable:nil-only-if-writable", fn.Pos(), "no nil return found")
+		if _, isBin := stripNot(iff.Cond).(*ssa.BinOp); isBin {
+			return false, false
 		}
+		_, truth, _ := cmpOf(iff.Cond)
+		return truth, !truth
 	}
+	n := 0
 	for _, t := range c.handlerTypes() {
-		for _, fn := range c.Funcs {
+		for _, fn := range c.subjects() {
 			if fn.Signature.Recv() == nil || namedOf(fn.Signature.Recv().Type()) != t {
 				continue
 			}
@@ -193,11 +185,15 @@ func c15Readonly(c *Ctx) {
 				if what == "" {
 					return
 				}
+				n++
 				key := fmt.Sprintf("%s:%s", fnKey(fn), strings.ReplaceAll(what, " ", "-"))
-				okG, _ := guarded(fn, ins, nilEdgeOf(func(o string) bool { return o == "call:(desync.HTTPHandlerBase).validateWritable#0" }))
-				c.verdict(okG, key, ins.Pos(), what+" only behind validateWritable()==nil", what+" is reachable although validateWritable did not succeed: a read-only server would modify its store (or read the body)")
+				okG, _ := guarded(fn, ins, writableTrue)
+				c.verdict(okG, key, ins.Pos(), what+" only where the handler was found writable", what+" is reachable although the writable switch of the handler was not found set: a read-only server would modify its store (or read the body)")
 			})
 		}
+	}
+	if n < 4 {
+		c.bad("readonly", token.NoPos, "found %d store writes / body reads in the handlers, expected at least 4", n)
 	}
 }
 
@@ -396,7 +392,7 @@ func c15Confinement(c *Ctx) {
 // HTTPHandlerBase.writable / .authorization - the fields the ServeHTTP rules test.
 func c15Plumbing(c *Ctx) {
 	n := 0
-	for _, fn := range c.Funcs {
+	for _, fn := range c.subjects() {
 		for _, call := range calls(fn, named("desync.NewHTTPHandler", "desync.NewHTTPIndexHandler")) {
 			n++
 			a := call.Common().Args
@@ -500,7 +496,7 @@ func c15StoreLocation(c *Ctx) {
 // silently stops having an effect.
 func c15EffectiveWrites(c *Ctx) {
 	n := 0
-	for _, fn := range c.Funcs {
+	for _, fn := range c.subjects() {
 		if fn.Blocks == nil {
 			continue
 		}
